@@ -785,7 +785,7 @@ def run(ctx):
                 if b is not None:
                     report_bad(ctx, b, 'replay')
     # code -> spec
-    nv, nr = (2500, 1200) if ctx.quick else (24000, 8000)
+    nv, nr = (2500, 1200) if ctx.quick else (20000, 6000)
     cases = [rand_verdict_case(ctx.rng, i) for i in range(nv)]
     cases += [rand_rewrite_case(ctx.rng, nv + i) for i in range(nr)]
     recs = [r for chunk in dump.pmap('engine.adapters.c04', 'observe_chunk', cases, extra=ctx.seed) for r in chunk]
